@@ -19,8 +19,11 @@ import (
 	dbm "github.com/cometbft/cometbft-db"
 	abci "github.com/cometbft/cometbft/abci/types"
 	sdk "github.com/cosmos/cosmos-sdk/types"
+	authtypes "github.com/cosmos/cosmos-sdk/x/auth/types"
 	sdkvesting "github.com/cosmos/cosmos-sdk/x/auth/vesting/types"
 	banktypes "github.com/cosmos/cosmos-sdk/x/bank/types"
+	distrtypes "github.com/cosmos/cosmos-sdk/x/distribution/types"
+	govtypes "github.com/cosmos/cosmos-sdk/x/gov/types"
 	govv1 "github.com/cosmos/cosmos-sdk/x/gov/types/v1"
 	stakingtypes "github.com/cosmos/cosmos-sdk/x/staking/types"
 	"github.com/ethereum/go-ethereum/common"
@@ -702,4 +705,55 @@ func LifecycleChains(tmpl []Template, nBase int) []Plan {
 	chain("evmCreate", "govEvmParams", "evmCreate", "evmBankQuery", "pcDelegate")
 	chain("evmTransfer", "govFeemarketParams", "evmTransfer", "evmDirtyCall", "evmTransfer")
 	return out
+}
+
+// AdversarialTemplates are histories aimed at the accounting invariants: pushing coins into the
+// module accounts whose balances the invariants pin (every way a user has of moving coins), and a
+// governance deposit in several denominations that gets burnt after a veto.
+func AdversarialTemplates() []Template {
+	mod := func(name string) sdk.AccAddress { return authtypes.NewModuleAddress(name) }
+	targets := []string{stakingtypes.BondedPoolName, stakingtypes.NotBondedPoolName, distrtypes.ModuleName, govtypes.ModuleName}
+	fund := Template{Name: "fundModuleAccounts", Build: func(w *world.World, _ precomp.ABIs) [][]byte {
+		var txs [][]byte
+		seq := w.App.AccountKeeper.GetAccount(w.Ctx(), w.Addrs[4]).GetSequence()
+		nEth := uint64(0)
+		for _, t := range targets {
+			to := mod(t)
+			toHex := common.BytesToAddress(to)
+			next := func(m sdk.Msg) {
+				sq := seq
+				bz, err := w.CosmosTx(w.Ctx(), world.CosmosSpec{Key: w.Keys[4], Gas: 500000, Msgs: []sdk.Msg{m}, Seq: &sq})
+				if err != nil {
+					panic(err)
+				}
+				txs = append(txs, bz)
+				seq++
+			}
+			next(banktypes.NewMsgSend(w.Addrs[4], to, coins(world.Denom, 7)))
+			next(banktypes.NewMsgMultiSend([]banktypes.Input{banktypes.NewInput(w.Addrs[4], coins(world.Denom, 7))}, []banktypes.Output{banktypes.NewOutput(to, coins(world.Denom, 7))}))
+			next(banktypes.NewMsgMultiSend([]banktypes.Input{banktypes.NewInput(w.Addrs[4], coins(world.Denom, 14))},
+				[]banktypes.Output{banktypes.NewOutput(to, coins(world.Denom, 7)), banktypes.NewOutput(w.Addrs[5], coins(world.Denom, 7))}))
+			next(banktypes.NewMsgSend(w.Addrs[4], to, coins("atest", 3)))
+			txs = append(txs, ethTx(w, 5, &toHex, 9, nil, 100000, nEth))
+			nEth++
+		}
+		return txs
+	}}
+	veto := Template{Name: "govVetoForeignDeposit", Steps: []func(w *world.World, _ precomp.ABIs) []byte{
+		func(w *world.World, _ precomp.ABIs) []byte {
+			p, err := govv1.NewMsgSubmitProposal(nil, coins(world.Denom, 1000).Add(sdk.NewInt64Coin("atest", 10)), w.Addrs[1].String(), "ipfs://verif", "veto", "veto")
+			if err != nil {
+				panic(err)
+			}
+			return cosmosTx(w, 1, p)
+		},
+		func(w *world.World, _ precomp.ABIs) []byte {
+			id, err := w.App.GovKeeper.GetProposalID(w.Ctx())
+			if err != nil {
+				panic(err)
+			}
+			return cosmosTx(w, 0, govv1.NewMsgVote(w.Addrs[0], id-1, govv1.OptionNoWithVeto, ""))
+		},
+	}}
+	return []Template{fund, veto}
 }
